@@ -592,7 +592,10 @@ impl Store {
             // Fetch by id
             for id in filter.ids() {
                 // (the limit is applied below, after sorting, so that the newest are kept)
-                if let Some(event) = self.get_event_by_id(id)? {
+                // look every id up in this query's own read transaction, so that the
+                // whole answer comes from one committed state
+                if let Some(offset) = self.indexes.get_offset_by_id(&txn, id)? {
+                    let event = unsafe { self.events.get_event_by_offset(offset as usize)? };
                     // and check each against the rest of the filter
                     if filter.event_matches(event)? && screen(event) {
                         let _ = output.insert(event);
